@@ -100,6 +100,9 @@ func NewRegion(root *ssa.Function) *Region {
 					continue
 				}
 				cal := regionCallee(ci)
+				if cal == nil {
+					cal = r.paramCallee(ci)
+				}
 				if cal == nil || in[cal] || !isRepoFunc(cal) {
 					continue
 				}
@@ -135,6 +138,27 @@ func NewRegion(root *ssa.Function) *Region {
 	}
 	r.order = keep
 	return r
+}
+
+// paramCallee: a call of a function-typed parameter of an inlined helper invokes the function literal (or
+// named function) handed in at the helper's only call site (callbacks: `store(ctx, blocks, func(pg) error {…})`).
+func (r *Region) paramCallee(ci ssa.CallInstruction) *ssa.Function {
+	if ci.Common().IsInvoke() {
+		return nil
+	}
+	p, ok := ci.Common().Value.(*ssa.Parameter)
+	if !ok {
+		return nil
+	}
+	switch x := r.Resolve(p).(type) {
+	case *ssa.MakeClosure:
+		return x.Fn.(*ssa.Function)
+	case *ssa.Function:
+		if x.Blocks != nil {
+			return x
+		}
+	}
+	return nil
 }
 
 func isRepoFunc(f *ssa.Function) bool {
